@@ -756,7 +756,10 @@ parse_read_term_options_(E,_) :-
 %  * `singletons` similar to `variable_names` but only reports variables occurring only once in Term.
 read_term(Stream, Term, Options) :-
     parse_read_term_options(Options, [Singletons, VariableNames, Variables], read_term/3),
-    '$read_term'(Stream, Term, Singletons, Variables, VariableNames).
+    % the variable lists describe the term read: they are made before
+    % that term is unified with Term, as in read_term_from_chars/3.
+    '$read_term'(Stream, Term0, Singletons, Variables, VariableNames),
+    Term = Term0.
 
 %% read_term(-Term, +Options).
 %
